@@ -6,6 +6,9 @@ import json, os, re, sys
 PROPS = ["C03", "C04", "C05", "C06", "C10", "C11", "C13", "C14", "C15"]
 rows = {}
 skipped = set()
+# keys of the known findings are never counted as "reported" (some matrix runs were made with a copy of
+# the known-findings file under another name, so the simulator printed them as violations)
+KNOWN = set(re.findall(r"^finding: property=\S+ key=(\S+)", open("/verif/KNOWN_FINDINGS.txt").read(), re.M))
 for path in sys.argv[1:]:
     cur = None
     keys = {}
@@ -25,7 +28,8 @@ for path in sys.argv[1:]:
             continue
         m = re.match(r"^\s+key=(C\d\d)/(\S+) ::", line)
         if m:
-            keys.setdefault(m.group(1), set()).add(m.group(2))
+            if f"{m.group(1)}/{m.group(2)}" not in KNOWN:
+                keys.setdefault(m.group(1), set()).add(m.group(2))
             continue
         m = re.match(r"^(C\d\d) quick: .*; (\d+) violation key", line)
         if m:
